@@ -433,3 +433,24 @@ pub fn block_is_full(b: &Block) -> bool {
 pub fn rt() -> tokio::runtime::Runtime {
     tokio::runtime::Builder::new_current_thread().enable_all().build().unwrap()
 }
+
+/// oracle for the chain model: does the real `Block::validate` pass when the block's parent is NOT in the store and
+/// the consensus values are compared (`validate_against_utxo = true`)? Inputs are made spendable so that only the
+/// header-level checks decide.
+pub async fn validates_without_parent(b: &Block, cfg: &Cfg) -> bool {
+    let n = Node::new(8, cfg.clone());
+    let mut utxo: saito_core::core::defs::UtxoSet = Default::default();
+    for tx in &b.transactions {
+        for s in &tx.from {
+            utxo.insert(s.utxoset_key, true);
+        }
+    }
+    let mut blk = b.clone();
+    if blk.generate().is_err() {
+        return false;
+    }
+    match crate::common::guarded_async(blk.validate(&n.blockchain, &utxo, &n.cfg, &n.storage, true)).await {
+        Ok(v) => v,
+        Err(_) => false,
+    }
+}
